@@ -106,7 +106,12 @@ type input struct {
 	Trunc     *int    `json:"trunc,omitempty"` // new file length
 	Swap      []int   `json:"swap,omitempty"`  // [offA, offB, n]: exchange n bytes
 	Note      string  `json:"note,omitempty"`
-	Pass      string  `json:"pass,omitempty"` // "mut": whole-pipeline mutation pass (mutate.go)
+	Pass      string  `json:"pass,omitempty"` // "mut": whole-pipeline mutation pass (mutate.go); "synth": table synthesis pass (synth.go)
+	// table synthesis pass: Font is the base font; the tables of Drop are removed, those of Syn added or replaced
+	// (ot.WriteTTF); Query is the last query of the battery that was started when the case failed
+	Syn   []synTable `json:"syn,omitempty"`
+	Drop  []string   `json:"drop,omitempty"`
+	Query string     `json:"query,omitempty"`
 }
 
 func (in *input) apply(orig []byte) []byte {
@@ -232,6 +237,11 @@ func loadFontInfo(root, rel string) (*fontInfo, error) {
 	if err != nil {
 		return nil, err
 	}
+	return newFontInfo(rel, data)
+}
+
+// newFontInfo is loadFontInfo on bytes already in memory.
+func newFontInfo(rel string, data []byte) (*fontInfo, error) {
 	fi := &fontInfo{rel: rel, data: data}
 	if len(data) < 12 {
 		return nil, fmt.Errorf("%s: too short", rel)
@@ -459,9 +469,13 @@ type mcase struct {
 	writes []write
 	trunc  int // -1: none
 	swap   []int
+	syn    *synCase // table synthesis pass
 }
 
 func (fi *fontInfo) toInput(c *mcase) input {
+	if c.syn != nil {
+		return c.syn.toInput()
+	}
 	in := input{Font: fi.rel, Container: fi.container, Mut: c.mut, Table: c.table, Writes: c.writes, Swap: c.swap}
 	if strings.HasPrefix(c.mut, "m") {
 		in.Pass = "mut"
@@ -815,8 +829,12 @@ var sink int
 
 var mperOverride int // -mper: mutants per font of the mutation pass
 
+// glyphIters counts the glyphs given to glyphBattery in the current case (six queries each).
+var glyphIters int
+
 func glyphBattery(f *font.Face, gids []font.GID) {
 	for _, g := range gids {
+		glyphIters++
 		f.HorizontalAdvance(g)
 		f.VerticalAdvance(g)
 		if e, ok := f.GlyphExtents(g); ok {
@@ -946,6 +964,7 @@ func runCase(b []byte, fi *fontInfo, tc tierCfg, wantStack bool) (out outcome) {
 	a0 := allocated()
 	t0 := time.Now()
 	shapeAlloc = 0
+	glyphIters = 0
 	defer func() {
 		if r := recover(); r != nil {
 			out.Class = "panic"
@@ -963,6 +982,9 @@ func runCase(b []byte, fi *fontInfo, tc tierCfg, wantStack bool) (out outcome) {
 					out.Stack = string(debug.Stack())
 				}
 			}
+			if passSynth {
+				out.Fail += " [query " + curQuery() + "]"
+			}
 		}
 		out.Alloc = allocated() - a0
 		if out.Alloc >= shapeAlloc {
@@ -971,7 +993,15 @@ func runCase(b []byte, fi *fontInfo, tc tierCfg, wantStack bool) (out outcome) {
 		dur := time.Since(t0)
 		out.Ms = dur.Milliseconds()
 		if out.Class != "panic" {
-			if out.Alloc > 64<<20+2000*uint64(len(b)) {
+			limit := 64<<20 + 2000*uint64(len(b))
+			if passSynth {
+				// The base fonts of the synthesis pass are tiny (2..5 KB) and its battery asks several hundred
+				// glyph queries; one query on a composite glyph may follow maxCompositeEdges = 1024 components
+				// by design (the limit of HarfBuzz), about 1 MB for a font of 3 KB whose composites point at
+				// composites. The budget of a case has 1 MiB per glyph of the battery (six queries) on top.
+				limit += uint64(glyphIters) << 20
+			}
+			if out.Alloc > limit {
 				out.Fail = fmt.Sprintf("alloc: %d bytes allocated for an input of %d bytes", out.Alloc, len(b))
 				out.Kind = "alloc"
 			} else if dur > tc.slow {
@@ -980,6 +1010,10 @@ func runCase(b []byte, fi *fontInfo, tc tierCfg, wantStack bool) (out outcome) {
 			}
 		}
 	}()
+	if passSynth {
+		runSynthLoad(b, fi, tc, &out, t0)
+		return out
+	}
 	if passMut {
 		runMutLoad(b, fi, tc, &out, t0)
 		return out
@@ -1079,13 +1113,21 @@ func childMain(root, rel string, tc tierCfg, seed int64, start, end int, pass st
 	debug.SetMaxStack(64 << 20)
 	runtime.GOMAXPROCS(2)
 	limitAddressSpace()
-	fi, err := loadFontInfo(root, rel)
-	if err != nil {
+	var (
+		fi  *fontInfo
+		err error
+	)
+	if pass == "synth" {
+		passSynth = true
+		fi = &fontInfo{rel: rel}
+	} else if fi, err = loadFontInfo(root, rel); err != nil {
 		fmt.Fprintln(os.Stderr, "child:", err)
 		os.Exit(4)
 	}
 	var cases []mcase
-	if pass == "mut" {
+	if pass == "synth" {
+		cases = enumerateSynth(root, strings.TrimPrefix(rel, "synth:"), synTierOf(tc.name), seed)
+	} else if pass == "mut" {
 		passMut = true
 		mt := mutTierOf(tc.name)
 		if mperOverride > 0 {
@@ -1122,6 +1164,9 @@ func childMain(root, rel string, tc tierCfg, seed int64, start, end int, pass st
 				mu.Lock()
 				site = runningSite()
 				o := outcome{Class: "alloc", Fail: fmt.Sprintf("alloc: %d bytes of live heap after %v in %s", live, el, site), Kind: "alloc:" + site, Alloc: live, Ms: el.Milliseconds()}
+				if passSynth {
+					o.Fail += " [query " + curQuery() + "]"
+				}
 				js, _ := json.Marshal(o)
 				fmt.Fprintf(w, "R %d %s\n", i, js)
 				w.Flush()
@@ -1133,6 +1178,9 @@ func childMain(root, rel string, tc tierCfg, seed int64, start, end int, pass st
 				}
 				mu.Lock()
 				o := outcome{Class: "hang", Fail: fmt.Sprintf("hang: still running after %v in %s", tc.hang, site), Kind: "hang:" + site, Ms: el.Milliseconds()}
+				if passSynth {
+					o.Fail += " [query " + curQuery() + "]"
+				}
 				js, _ := json.Marshal(o)
 				fmt.Fprintf(w, "R %d %s\n", i, js)
 				w.Flush()
@@ -1144,21 +1192,34 @@ func childMain(root, rel string, tc tierCfg, seed int64, start, end int, pass st
 	for i := start; i < end; i++ {
 		c := &cases[i]
 		in := fi.toInput(c)
-		b := in.apply(fi.data)
+		var b []byte
+		cfi := fi
+		if c.syn != nil {
+			b = c.syn.bytes(root)
+			if cfi, err = newFontInfo(c.syn.base, b); err != nil {
+				cfi = &fontInfo{rel: c.syn.base, data: b}
+			}
+		} else {
+			b = in.apply(fi.data)
+		}
 		since.Store(time.Now().UnixNano())
 		cur.Store(int64(i))
 		if st := os.Getenv("C09_SELFTEST"); st != "" && i == start+2 && start == 0 {
 			selfTest(st) // checks that the parent survives a fatal child
 		}
-		o := runCase(b, fi, tc, false)
+		o := runCase(b, cfi, tc, false)
 		cur.Store(-1)
 		if o.Kind == "alloc" {
-			o.Kind = "alloc:" + allocSite(b, fi, tc)
+			o.Kind = "alloc:" + allocSite(b, cfi, tc)
 		}
 		if o.Kind == "slow" {
-			o.Kind = "slow:" + slowSite(b, fi, tc)
+			o.Kind = "slow:" + slowSite(b, cfi, tc)
 		}
-		o.Err = ""
+		if c.syn != nil {
+			o.Err = synAccepted // which of the synthesized tables the loader accepted (histogram)
+		} else {
+			o.Err = ""
+		}
 		js, _ := json.Marshal(o)
 		mu.Lock()
 		fmt.Fprintf(w, "R %d %s\n", i, js)
@@ -1284,6 +1345,7 @@ type parent struct {
 	stop  atomic.Bool
 
 	mutEvals int
+	synEvals int
 }
 
 func (p *parent) record(j *job, i int, o outcome) {
@@ -1292,7 +1354,9 @@ func (p *parent) record(j *job, i int, o outcome) {
 	p.mu.Lock()
 	defer p.mu.Unlock()
 	p.evals++
-	if j.pass == "mut" {
+	if j.pass == "synth" {
+		p.recordSynth(c, &o)
+	} else if j.pass == "mut" {
 		// the histogram of the mutation pass: table kinds (collection members folded), mutation kinds, outcomes
 		p.mutEvals++
 		p.hist["mcontainer:"+j.fi.container]++
@@ -1307,7 +1371,7 @@ func (p *parent) record(j *job, i int, o outcome) {
 		p.hist["outcome:"+o.Class]++
 	}
 	tab := in.Table
-	if j.pass == "mut" {
+	if j.pass == "mut" || j.pass == "synth" {
 		tab = ""
 	}
 	if k := strings.IndexAny(tab, ".<"); k > 0 && !strings.HasPrefix(tab, "dir:") {
@@ -1319,6 +1383,12 @@ func (p *parent) record(j *job, i int, o outcome) {
 	if o.Kind != "" {
 		p.hist["fail:"+o.Kind]++
 		rank := map[string]int{"set16": 0, "set32": 0, "none": 0, "trunc": 1, "swap": 2, "rand": 3, "mtrunc": 4, "moffs": 4, "mflip": 4, "mdir": 5}[c.mut]*1000 + len(c.writes)*100
+		if c.syn != nil {
+			rank = 6000 + c.syn.size()/16 // the smallest tables first
+			if i := strings.Index(o.Fail, " [query "); i >= 0 {
+				in.Query = strings.TrimSuffix(o.Fail[i+8:], "]")
+			}
+		}
 		f := failure{Fail: o.Fail, Kind: o.Kind, Input: in, rank: rank}
 		l := append(p.fails[o.Kind], f)
 		sort.SliceStable(l, func(a, b int) bool {
@@ -1625,6 +1695,10 @@ func main() {
 		passF    = flag.String("pass", "", "passes to run: field, mut (default: both); internal with -child")
 		mbudget  = flag.Duration("mbudget", 0, "wall clock budget of the mutation pass (default: per tier)")
 		mper     = flag.Int("mper", 0, "mutants per font of the mutation pass (default: per tier; NOT passed to -replay)")
+		sbudget  = flag.Duration("sbudget", 0, "wall clock budget of the synthesis pass (default: per tier)")
+		skind    = flag.String("skind", "", "synthesis pass: only this table kind (e.g. kern, CFF)")
+		slist    = flag.Bool("slist", false, "synthesis pass: print the kinds, formats and case counts, then exit")
+		sparse   = flag.String("sparse", "", "synthesis pass, debugging a builder: kind.format whose base tables are given to the table parser; prints the errors")
 	)
 	flag.Parse()
 	mperOverride = *mper
@@ -1675,8 +1749,17 @@ func main() {
 		return
 	}
 
+	if *slist {
+		listSynth(*root, synTierOf(tc.name), *seed)
+		return
+	}
+	if *sparse != "" {
+		parseSynth(*root, *sparse, *seed)
+		return
+	}
 	runField := *passF == "" || *passF == "field"
 	runMut := *passF == "" || *passF == "mut"
+	runSyn := *passF == "" || *passF == "synth"
 	pool := func(budget time.Duration) (chan *job, func()) {
 		jobc := make(chan *job)
 		var wg sync.WaitGroup
@@ -1806,6 +1889,22 @@ func main() {
 			"mutants_per_font": mt.perFont, "seconds": int(time.Since(t1).Seconds())}
 	}
 
+	// the structure-aware table synthesis pass (synth.go)
+	synStats := map[string]interface{}{}
+	if runSyn {
+		st := synTierOf(tc.name)
+		if *sbudget > 0 {
+			st.budget = *sbudget
+		}
+		jobc, wait := pool(st.budget)
+		var n int
+		synStats, n = p.runSynth(*root, st, *skind, jobc, wait, &samples)
+		planned += n
+		if synStats["skipped_by_budget"].(int) > 0 {
+			truncated = true
+		}
+	}
+
 	out := bufio.NewWriter(os.Stdout)
 	enc := json.NewEncoder(out)
 	kinds := make([]string, 0, len(p.fails))
@@ -1830,6 +1929,7 @@ func main() {
 		"truncated_by_budget": truncated,
 		"field_pass_seconds":  fieldSeconds,
 		"mutation_pass":       mutStats,
+		"synthesis_pass":      synStats,
 	}
 	enc.Encode(map[string]interface{}{"stats": stats})
 	out.Flush()
@@ -1850,6 +1950,15 @@ func replayMain(root, js string, tc tierCfg, dump string) {
 	}
 	b := in.apply(fi.data)
 	passMut = in.Pass == "mut"
+	if in.Pass == "synth" {
+		passSynth = true
+		b = synCaseOfInput(&in).bytes(root)
+		orig := fi.data
+		if fi, err = newFontInfo(in.Font, b); err != nil {
+			fi = &fontInfo{rel: in.Font, data: b}
+		}
+		fi.data = orig // for the "changed" flag below
+	}
 	if dump != "" {
 		if err := os.WriteFile(dump, b, 0o644); err != nil {
 			fatal("%v", err)
